@@ -100,6 +100,7 @@ class Flags(object):
         self.taskfailed_wildcard = False
         self.tie = False                # simultaneous failures / order dependent outcome
         self.deadline_tie = False       # a reply or wait end coincides exactly with a deadline
+        self.ambiguous_calls = False    # same (function, payload) requested from concurrent lanes with a varying script
         self.fanout_failures = 0        # number of branches/iterations that ended in failure
         self.max_fail_depth = 0         # deepest fan-out nesting level at which a branch failed
         self.fanout_handled = 0         # fan-out failures that were then retried or caught by the fan-out state
@@ -118,6 +119,11 @@ def has_placeholder(v):
     if isinstance(v, list):
         return any(has_placeholder(x) for x in v)
     return False
+
+
+def loose_stable(v):
+    """A worker result is usable when placeholders only travel inside it structurally."""
+    return not isinstance(v, (int, float)) or isinstance(v, bool)
 
 
 def select(doc, ctxobj, path, flags, errs=RUNTIME):
@@ -759,12 +765,13 @@ class Interp(object):
             if ln != self.lane:
                 # the same (function, payload) is requested from two concurrent lanes: the call index,
                 # and with it the scripted outcome, depends on the schedule
-                self.flags.tie = True
-                self.flags.notes.append("ambiguous call index for %s" % fn)
+                self.flags.ambiguous_calls = True
         idx = self.counters.get(key, 0)
         self.counters[key] = idx + 1
         self.out.requests.append((t, fn, copy.deepcopy(eff), name, attempt))
         o = worker_outcome(self.script, fn, eff, idx)
+        if has_placeholder(eff) and o.get("kind") == "result" and not loose_stable(o["value"]):
+            raise ModelUnsupported("task result computed from text the model does not predict")
         if t >= self.deadline():
             # the execution deadline has already passed: the request still goes out with a zero time-out, so an
             # immediate reply races with the timer
